@@ -1,4 +1,4 @@
-import MgpuModel.C13
+import MgpuModel.C13Core
 /-!
 # C13 — the metadata layouts field by field, in their declared widths
 
